@@ -87,8 +87,12 @@ def check(index, ctx):
                 ctx.violated("R3", f"{e['validator'].split('.')[-1]}: validator does not test requires_grad and (is_leaf or retains_grad)",
                              "the up-front validator accepts tensors that cannot receive a .grad (e.g. a frozen leaf): they are rejected later, after other .grad fields were written", e["loc"])
             covered = {a for e in checks for a in (e["target"] or [])}
-            # discovered leaves are leaf tensors requiring grad by construction (AccumulateGrad.variable): their check cannot fail
-            missing = [a for a in targets if a not in covered and not a.startswith("leaves(")]
+            # Discovered leaves (AccumulateGrad.variable) normally expect grad, but a leaf frozen with requires_grad_(False) after the
+            # forward pass is still discovered. In backward every differentiation precedes every write (C01 R1), so torch rejects it
+            # before anything is written; in mtl_backward the tasks are differentiated and accumulated one after the other, so the
+            # discovered collections need the up-front check as well.
+            exempt = (lambda a: a.startswith("leaves(")) if run.entry == "backward" else (lambda a: False)
+            missing = [a for a in targets if a not in covered and not exempt(a)]
             k = f"{run.label}: every written parameter collection was validated before the first write"
             ctx.require(not missing, "R3", k if not missing else f"{run.entry}: parameters {missing} are validated only after .grad writes have begun",
                         f"collections {targets} all checked (in completed loops) before {first['loc']}",
@@ -98,5 +102,6 @@ def check(index, ctx):
     ctx.extra["rejection_inventory"] = inventory
     ctx.floor("argument-rejection paths inspected", n_rej, 30)
     _pipe.common_evidence(ctx, index)
-    ctx.assumptions.append("tensors found by leaf discovery are leaves requiring grad, so only explicitly listed parameters can be rejected by the expects-grad check")
+    ctx.assumptions.append("backward: a discovered leaf that no longer requires grad is rejected by torch.autograd.grad, which runs before any write (stage order decided under C01); "
+                           "mtl_backward: discovered collections must be validated up front like the listed ones")
     ctx.assumptions.append("rejections inside mtl_backward's aggregator call happen after the task parameters were accumulated by design; the statement covers the aggregator only for backward")
